@@ -32,9 +32,11 @@ Definition sm_go (m : seqmon) (p : phase) : option seqmon := Some (mkSM p (sm_an
 Definition seqmon_step (m : seqmon) (e : cev) : option seqmon :=
   if sm_shut m then
     match e with
-    | EvDialBegin => if sm_dials_after_shut m <? 1 then Some (mkSM (sm_ph m) (sm_announced_before m) true (sm_dials_after_shut m + 1)) else None
-    | EvDisc st =>   (* a command racing with Shutdown started a new sequence: outside the claim about the one shut down *)
-        if st =? (if sm_announced_before m then 3 else 2) then Some (mkSM PAnnounced true false 0) else None
+    | EvDialBegin =>
+        if sm_dials_after_shut m <? 0 then Some m
+        else if sm_dials_after_shut m <? 1 then Some (mkSM (sm_ph m) (sm_announced_before m) true (sm_dials_after_shut m + 1)) else None
+    | EvDisc _ => Some (mkSM (sm_ph m) (sm_announced_before m) true (-1))
+        (* an announcement after Shutdown: either the cancelled sequence's own late one or a new sequence started by a racing command; nothing further is claimed *)
     | _ => Some m
     end
   else
@@ -86,8 +88,9 @@ Record cmdmon := mkCM {
 
 (* w_open_fin / w_open_fatal: the most recently announced sequence has already finalized / failed fatally, so a command
    starting now may still join it while it winds up *)
-Record waitmon := mkWM { w_fin : Z; w_fatal : Z; w_shut : bool; w_open_fin : bool; w_open_fatal : bool; w_cmds : list cmdmon }.
-Definition waitmon0 : waitmon := mkWM 0 0 false false false [].
+Record waitmon := mkWM { w_fin : Z; w_fatal : Z; w_shut : bool; w_open_fin : bool; w_open_fatal : bool; w_cmds : list cmdmon;
+                         w_precancel : list Z   (* contexts that ended before their command started *) }.
+Definition waitmon0 : waitmon := mkWM 0 0 false false false [] [].
 Definition base_fin (m : waitmon) : Z := if w_open_fin m then w_fin m - 1 else w_fin m.
 Definition base_fatal (m : waitmon) : Z := if w_open_fatal m then w_fatal m - 1 else w_fatal m.
 
@@ -96,7 +99,7 @@ Fixpoint kfind (c : Z) (l : list cmdmon) : option cmdmon :=
 Fixpoint kupdate (c : Z) (f : cmdmon -> cmdmon) (l : list cmdmon) : list cmdmon :=
   match l with [] => [] | x :: r => if k_id x =? c then f x :: r else x :: kupdate c f r end.
 
-Definition wm_cmds (m : waitmon) (l : list cmdmon) : waitmon := mkWM (w_fin m) (w_fatal m) (w_shut m) (w_open_fin m) (w_open_fatal m) l.
+Definition wm_cmds (m : waitmon) (l : list cmdmon) : waitmon := mkWM (w_fin m) (w_fatal m) (w_shut m) (w_open_fin m) (w_open_fatal m) l (w_precancel m).
 
 Definition ret_matches (m : waitmon) (k : cmdmon) (e : cerr) : bool :=
   match k_last k with
@@ -116,17 +119,29 @@ Definition ret_matches (m : waitmon) (k : cmdmon) (e : cerr) : bool :=
 
 Definition waitmon_step (m : waitmon) (e : cev) : option waitmon :=
   match e with
-  | EvFinalize _ => Some (mkWM (w_fin m + 1) (w_fatal m) (w_shut m) true (w_open_fatal m) (w_cmds m))
-  | EvDialEnd DFatal _ | EvOnConnect OFatal => Some (mkWM (w_fin m) (w_fatal m + 1) (w_shut m) (w_open_fin m) true (w_cmds m))
-  | EvDisc _ => Some (mkWM (w_fin m) (w_fatal m) (w_shut m) false false (w_cmds m))
-  | EvShutdown => Some (mkWM (w_fin m) (w_fatal m) true (w_open_fin m) (w_open_fatal m) (w_cmds m))
+  | EvFinalize _ => Some (mkWM (w_fin m + 1) (w_fatal m) (w_shut m) true (w_open_fatal m) (w_cmds m) (w_precancel m))
+  | EvDialEnd DFatal _ | EvOnConnect OFatal => Some (mkWM (w_fin m) (w_fatal m + 1) (w_shut m) (w_open_fin m) true (w_cmds m) (w_precancel m))
+  | EvDisc _ => Some (mkWM (w_fin m) (w_fatal m) (w_shut m) false false (w_cmds m) (w_precancel m))
+  | EvShutdown => Some (mkWM (w_fin m) (w_fatal m) true (w_open_fin m) (w_open_fatal m) (w_cmds m) (w_precancel m))
   | EvCmdStart c force _ =>
       match kfind c (w_cmds m) with
       | Some _ => None
-      | None => Some (wm_cmds m (mkCM c force 0 None None false false (base_fin m) (base_fatal m) false :: w_cmds m))
+      | None => Some (wm_cmds m (mkCM c force 0 None None false (zmemb c (w_precancel m)) (base_fin m) (base_fatal m) false :: w_cmds m))
       end
-  | EvCancel c => Some (wm_cmds m (kupdate c (fun k => mkCM (k_id k) (k_force k) (k_execs k) (k_last k) (k_need_fin k) (k_notify_due k) true
+  | EvCancel c =>
+      match kfind c (w_cmds m) with
+      | None => Some (mkWM (w_fin m) (w_fatal m) (w_shut m) (w_open_fin m) (w_open_fatal m) (w_cmds m) (c :: w_precancel m))
+      | Some _ =>
+      Some (wm_cmds m (kupdate c (fun k => mkCM (k_id k) (k_force k) (k_execs k) (k_last k) (k_need_fin k) (k_notify_due k) true
                                                              (k_start_fin k) (k_start_fatal k) (k_returned k)) (w_cmds m)))
+      end
+  | EvWaiting c _ false =>
+      (* joined a sequence that was already running: if that one has already finalized, the command is released by it
+         without a new Finalize *)
+      if w_open_fin m
+      then Some (wm_cmds m (kupdate c (fun k => mkCM (k_id k) (k_force k) (k_execs k) (k_last k) None (k_notify_due k) (k_cancelled k)
+                                                     (k_start_fin k) (k_start_fatal k) (k_returned k)) (w_cmds m)))
+      else Some m
   | EvExec c n o =>
       match kfind c (w_cmds m) with
       | Some k =>
@@ -168,37 +183,42 @@ Record delaymon := mkDM {
   dm_must_fire : bool;          (* a fire-now command is waiting for the sequence that is (or will be) delaying *)
   dm_seq_open : bool;           (* a sequence was announced and has neither finalized nor failed fatally *)
   dm_unannounced : bool;        (* a sequence was started and has not announced itself yet *)
-  dm_off : bool
+  dm_off : bool;
+  dm_may : list Z               (* commands whose fire-now marker was seen and that have neither executed nor returned since *)
 }.
-Definition delaymon0 (eager : bool) : delaymon := mkDM TmIdle false false eager false.
+Definition delaymon0 (eager : bool) : delaymon := mkDM TmIdle false false eager false [].
 
 Definition release (t : tmph) : tmph := match t with TmStarted => TmReleased | x => x end.
 
 Definition delaymon_step (m : delaymon) (e : cev) : option delaymon :=
   if dm_off m then Some m else
   match e with
-  | EvShutdown => Some (mkDM (dm_t m) (dm_must_fire m) (dm_seq_open m) (dm_unannounced m) true)
-  | EvTimerStart => Some (mkDM TmStarted (dm_must_fire m) (dm_seq_open m) (dm_unannounced m) false)
+  | EvShutdown => Some (mkDM (dm_t m) (dm_must_fire m) (dm_seq_open m) (dm_unannounced m) true (dm_may m))
+  | EvTimerStart => Some (mkDM TmStarted (dm_must_fire m) (dm_seq_open m) (dm_unannounced m) false (dm_may m))
   | EvTimerElapsed =>
       match dm_t m with
-      | TmStarted => if dm_must_fire m then None else Some (mkDM TmReleased false (dm_seq_open m) (dm_unannounced m) false)
+      | TmStarted => if dm_must_fire m then None else Some (mkDM TmReleased false (dm_seq_open m) (dm_unannounced m) false (dm_may m))
       | _ => None
       end
-  | EvFastForward | EvFireNow _ => Some (mkDM (release (dm_t m)) (dm_must_fire m) (dm_seq_open m) (dm_unannounced m) false)
+  | EvFastForward => Some (mkDM (release (dm_t m)) (dm_must_fire m) (dm_seq_open m) (dm_unannounced m) false (dm_may m))
+  | EvFireNow c => Some (mkDM (release (dm_t m)) (dm_must_fire m) (dm_seq_open m) (dm_unannounced m) false (c :: dm_may m))
+  | EvExec c _ _ | EvCmdRet c _ =>
+      Some (mkDM (dm_t m) (dm_must_fire m) (dm_seq_open m) (dm_unannounced m) false (filter (fun d => negb (d =? c)) (dm_may m)))
   | EvWaiting _ firenow spawned =>
       let live := spawned || dm_seq_open m || dm_unannounced m in
       Some (mkDM (if firenow then release (dm_t m) else dm_t m)
                  (if firenow && live then true else dm_must_fire m)
-                 (dm_seq_open m) (spawned || dm_unannounced m) false)
-  | EvDisc _ => Some (mkDM (dm_t m) (dm_must_fire m) true false false)
+                 (dm_seq_open m) (spawned || dm_unannounced m) false (dm_may m))
+  | EvDisc _ => Some (mkDM (dm_t m) (dm_must_fire m) true false false (dm_may m))
   | EvDelayDone =>
       match dm_t m with
-      | TmReleased => Some (mkDM TmIdle (dm_must_fire m) (dm_seq_open m) (dm_unannounced m) false)
-      | TmStarted => if dm_must_fire m then Some (mkDM TmIdle true (dm_seq_open m) (dm_unannounced m) false) else None
+      | TmReleased => Some (mkDM TmIdle (dm_must_fire m) (dm_seq_open m) (dm_unannounced m) false (dm_may m))
+      | TmStarted => if dm_must_fire m || negb (match dm_may m with [] => true | _ => false end)
+                     then Some (mkDM TmIdle (dm_must_fire m) (dm_seq_open m) (dm_unannounced m) false (dm_may m)) else None
       | TmIdle => None
       end
   | EvDialBegin => match dm_t m with TmIdle => Some m | _ => None end
-  | EvFinalize _ | EvDialEnd DFatal _ | EvOnConnect OFatal => Some (mkDM (dm_t m) false false (dm_unannounced m) false)
+  | EvFinalize _ | EvDialEnd DFatal _ | EvOnConnect OFatal => Some (mkDM (dm_t m) false false (dm_unannounced m) false (dm_may m))
   | _ => Some m
   end.
 Definition c16_delay (eager : bool) (tr : list cev) : bool := caccepts delaymon_step (delaymon0 eager) tr.
